@@ -35,7 +35,9 @@ func BitSetFilterFromBytes(s []byte, capInBytes int) BitSetFilter {
 }
 
 func (f *BitSetFilter) indexAndOffset(idx int64) (int, int) {
-	return (int(idx) / byteBits) % cap(f.s), int(idx) % byteBits
+	// unsigned arithmetic: a negative idx must not give a negative index or shift
+	u := uint64(idx)
+	return int((u / byteBits) % uint64(cap(f.s))), int(u % byteBits)
 }
 
 func (f *BitSetFilter) Set(idx int64) {
@@ -52,6 +54,9 @@ func (f BitSetFilter) Test(idx int64) bool {
 		return false
 	}
 	i, o := f.indexAndOffset(idx)
+	if i >= len(f.s) {
+		return false
+	}
 	return (f.s[i] & (1 << o)) != 0
 }
 
